@@ -202,6 +202,52 @@ pub fn sites(thorough: bool) -> Vec<Site> {
         }),
         Box::new(|b, _| walk_ok(&tables::numa::Hmat, b)),
     );
+    // the same count limits with REPEATED element values (a guard must count elements, not distinct elements)
+    for period in [1u64, 48] {
+        add(
+            Box::leak(format!("HMAT side-cache SMBIOS handles, values repeating with period {} (2-byte count)", period).into_boxed_str()),
+            65_535,
+            &[65_536, 65_537, 72_000, 131_072],
+            false,
+            Box::new(move |n| {
+                let mut t = hmat::HMAT::new(c().oem_id(), c().oem_table_id(), c().oem_rev());
+                let mut m = hmat::MemorySideCache::new(1, 2, hmat::CacheLevel::One, hmat::CacheLevel::One, hmat::Associativity::None, hmat::WritePolicy::None, 64);
+                for i in 0..n {
+                    m.add_smbios_handle((i % period) as u16 + 7);
+                }
+                t.add_memory_side_cache(m);
+                ser(&t)
+            }),
+            Box::new(|b, _| walk_ok(&tables::numa::Hmat, b)),
+        );
+        add(
+            Box::leak(format!("RIMT root complex id mappings, identical up to period {} (2-byte node length: 16 + 20n)", period).into_boxed_str()),
+            3275,
+            &[3276, 3277, 3300, 65_536],
+            false,
+            Box::new(move |n| {
+                let mut t = rimt::RIMT::new(c().oem_id(), c().oem_table_id(), c().oem_rev());
+                let h = t.add_iommu(rimt::Iommu::new(1, None, None, None, None));
+                let m = (0..n).map(|i| rimt::IdMapping::new((i % period) as u32, 0, 1, h, false, false, false)).collect();
+                t.add_pcie_root_complex(rimt::PcieRootComplex::new(2, 0, false, false, Some(m)));
+                ser(&t)
+            }),
+            Box::new(|b, _| walk_ok(&tables::topo::Rimt, b)),
+        );
+        add(
+            Box::leak(format!("RIMT IOMMU interrupt wires, identical up to period {} (2-byte node length: 32 + 8n)", period).into_boxed_str()),
+            8187,
+            &[8188, 8189, 8192, 65_536],
+            false,
+            Box::new(move |n| {
+                let mut t = rimt::RIMT::new(c().oem_id(), c().oem_table_id(), c().oem_rev());
+                let w = (0..n).map(|i| rimt::InterruptWire::new((i % period) as u32, true, false, 1)).collect();
+                t.add_iommu(rimt::Iommu::new(1, None, None, None, Some(w)));
+                ser(&t)
+            }),
+            Box::new(|b, _| walk_ok(&tables::topo::Rimt, b)),
+        );
+    }
     // ---- RIMT: 2-byte node length, 2-byte element counts, 2-byte mapping-array offset
     add(
         "RIMT IOMMU interrupt wires (2-byte node length: 32 + 8n)",
